@@ -236,7 +236,11 @@ def _install():
                 rhs[n_] = n_
             else:
                 M, rhs = fb.augment(A_code)
-            z, _ = fb.nnls_ref(M, rhs)
+            if c["method"] is None and getattr(fm, "_verif", {}).get("path") == "inv" and M.shape[0] == M.shape[1]:
+                # direct inversion accepted (all defaults do not reject negative values): exact solution of the system
+                z = np.linalg.solve(M, rhs)
+            else:
+                z, _ = fb.nnls_ref(M, rhs)
             model = z[:-1]
         worst = 0.0
         for name, vals in obs.items():
@@ -333,7 +337,12 @@ def _one(rng, fam, mon, sigs, hist, metrics):
         try:
             solver.build_force_matrix(when=0, circle_fit_method=fit)
             kw = {} if method is None else {"method": method}
-            solver.solve_stress(when=0, allow_negatives=False, **kw)
+            if method is None and rng.random() < 0.4:
+                # all defaults (negative values are then not rejected; the true solution has none)
+                hist["all-defaults"] = hist.get("all-defaults", 0) + 1
+                solver.solve_stress(when=0)
+            else:
+                solver.solve_stress(when=0, allow_negatives=False, **kw)
         except Exception as exc:
             import traceback
             mon.fail("raises", "static inference returns a result", exc=repr(exc)[:200], method=method, fit=fit, fam=fam,
